@@ -602,6 +602,11 @@ func (v *Violation) Key() string {
 		sort.Strings(f)
 		return "data_race@" + strings.Join(f, "+")
 	case "result_differs", "panic":
+		if strings.Contains(v.OpSpec, "(test.zzclash.v1.") {
+			// workloads over these types contain nothing else: whatever goes wrong there is the
+			// schema-name clash of known_findings.txt
+			return "schema_name_clash@test.zzclash.v1"
+		}
 		if strings.HasPrefix(v.OpSpec, "process_history(") {
 			return v.Class + "@process_history"
 		}
